@@ -295,6 +295,7 @@ def run_victim_server(strict: bool, scenario: str,
         info['applied'] = info['inj_seq'] is not None
         info['ref_saw'] = summarize_ref(conn)
         info['exchanges'] = len(ref.exchanges)
+        info['victim_types'] = [p_['type'] for p_ in ref.packets]
         return log, info
     finally:
         link.close()
@@ -449,6 +450,7 @@ def run_victim_client(strict: bool, scenario: str,
         info['applied'] = info['inj_seq'] is not None
         info['ref_saw'] = [(u, s, m) for u, s, m in conn.auth_requests]
         info['exchanges'] = len(ref.exchanges)
+        info['victim_types'] = [p_['type'] for p_ in ref.packets]
         return log, info
     finally:
         link.close()
@@ -540,6 +542,25 @@ def judge(case, log, info, base_log, base_info) -> str:
         raise Violation('strict-kex', where + ': injection before NEWKEYS '
                         'was not fatal although strict KEX was negotiated',
                         'strict:' + sig)
+
+    if case['strict'] and k <= 2:
+        # fatal means fatal AT the injected message: what the victim put on
+        # the wire is what it sends in the untampered dialogue up to some
+        # point, then at most DISCONNECT - never an answer to the injection
+        # (UNIMPLEMENTED for a type it does not know, IGNORE and DEBUG say
+        # nothing about the injection having been accepted)
+        vt = list(info.get('victim_types', []))
+
+        while vt and vt[-1] in (1, 2, 3, 4):
+            vt.pop()
+
+        if vt != list(base_info.get('victim_types', []))[:len(vt)]:
+            raise Violation(
+                'strict-kex', where + ': with strict KEX negotiated the '
+                'victim answered a message injected before NEWKEYS: it sent '
+                'packet types %r, the untampered dialogue has %r' %
+                (info['victim_types'][:8], base_info['victim_types'][:8]),
+                'strict-answered:' + sig)
 
     # service, authentication and connection messages are never "unknown":
     # before the first NEWKEYS they must end the connection.  Other types
